@@ -40,7 +40,7 @@ ECHO_KEYS = ("kind", "cert", "reg", "path", "change", "present")
 # ------------------------------------------------------------------------------------------------ J1 / J2
 
 def j1(cfg, timeout):
-    return vlib.tlc(SPEC, "MC_GatewayAuth", cfg, workers=min(4, vlib.NCPU), timeout=timeout, deadlock=False)
+    return vlib.tlc(SPEC, "MC_GatewayAuth", cfg, workers=min(4, vlib.NCPU), timeout=timeout, deadlock=False, heap="4g")
 
 
 def parse_universe(out):
@@ -75,7 +75,7 @@ def judge(trace_lines, workdir, tag, timeout=1200):
     def one(n):
         if not chunks[n]:
             return n, None
-        r = vlib.tlc(SPEC, "GatewayAuthTrace", "GatewayAuthTrace.cfg", workers=2, timeout=timeout, deadlock=False,
+        r = vlib.tlc(SPEC, "GatewayAuthTrace", "GatewayAuthTrace.cfg", workers=2, timeout=timeout, deadlock=False, heap="1g",
                      copy_files={"trace.ndjson": files[n]}, extra_args=["-continue"])
         return n, r
 
